@@ -22,13 +22,14 @@ import shutil
 import stat
 import struct
 import tempfile
+import types
 
 from twisted.internet import interfaces
 from twisted.internet.testing import StringTransport
 from zope.interface import directlyProvides, implementer, providedBy
 
 STREAMS = ['lines-exhaustive', 'lines-random', 'lines-malformed', 'cookie-env', 'handshake-spec-server',
-           'handshake-sequence']
+           'handshake-sequence', 'own-bus-handshake']
 THEOREMS = ['begin_only_after_ok', 'begin_only_after_ok_of_current_mechanism', 'authenticated_iff_begin',
             'mechanisms_once_in_order', 'moves_on_after_rejected_or_error', 'no_stall', 'no_stall_run',
             'no_complete_line_buffered', 'framing_independent_of_reads', 'line_delivered_in_pieces',
@@ -83,6 +84,9 @@ class KeyEnv:
         except OSError:
             self.dir = 'none'
             self.usable = False
+
+    def urandom(self, n):
+        return (self.rnd * n)[:n]
 
     def driver_tokens(self):
         toks = [hx(self.user.encode('ascii')), self.dir, hx(self.rnd), str(len(self.files))]
@@ -180,12 +184,13 @@ class World:
             """`open` as seen by txdbus.authentication: a path that leaves the keyring directory of the
             current environment is recorded and refused - nothing outside the scratch keyrings is ever
             opened (a FIFO or a device there would block the process)."""
-            keyring = os.path.realpath(os.path.join(world.env.home, '.dbus-keyrings'))
+            roots = [os.path.realpath(r) for r in
+                     (getattr(world.env, 'keyrings', None) or [os.path.join(world.env.home, '.dbus-keyrings')])]
             try:
                 real = os.path.realpath(os.fspath(path))
             except (TypeError, ValueError):
                 real = None
-            if real is None or not (real == keyring or real.startswith(keyring + os.sep)):
+            if real is None or not any(real == k or real.startswith(k + os.sep) for k in roots):
                 world.escapes.append(os.fsdecode(path) if isinstance(path, (bytes, str)) else repr(path))
                 raise PermissionError(13, 'refused by the harness', path)
             return open(path, *a, **kw)
@@ -197,7 +202,7 @@ class World:
                 return getattr(os, name)
 
             def urandom(self, n):
-                return (world.env.rnd * n)[:n]
+                return world.env.urandom(n)
 
         class GetPass:
             def getuser(self):
@@ -210,7 +215,7 @@ class World:
         for k, _ in self._saved_os:
             setattr(authentication, k, OsProxy())
         self._real_urandom = os.urandom
-        os.urandom = lambda n: (world.env.rnd * n)[:n] if world.env is not None else self._real_urandom(n)
+        os.urandom = lambda n: world.env.urandom(n) if world.env is not None else self._real_urandom(n)
         self._saved = (None, getattr(authentication, 'getpass', None))
         authentication.getpass = GetPass()
         self._home = os.environ.get('HOME')
@@ -423,12 +428,12 @@ def split_cmd(line):
 
 
 def valid_guid(args):
-    """`OK <guid> ...`: the first argument is a non-empty, even number of hex digits."""
-    toks = args.split()
-    if not toks:
-        return False
-    a = toks[0]
-    return len(a) % 2 == 0 and all(c in HEXDIGITS for c in a)
+    """`OK <guid>`: the argument (blanks around it removed, as `bytes.strip()` does) is a non-empty string of
+    even length that consists solely of hexadecimal digits.  White space INSIDE the argument (`OK 12 34`,
+    `OK 12\\t34`), an odd number of digits, any other character, or no argument at all is not a GUID.
+    (This is inside what the unchanged code accepts: `binascii.unhexlify(line.strip())`.)"""
+    a = args.strip()
+    return len(a) > 0 and len(a) % 2 == 0 and all(c in HEXDIGITS for c in a)
 
 
 def is_subsequence_without_repetition(xs, ys):
@@ -447,6 +452,7 @@ def monitor(world, unix, evs, early_binary, pref=None):
     ev = [(e[:1], unhx(e[2:]) if e[:2] in ('R:', 'S:') else None) for e in evs]
     ok_seen = neg_after_ok = fd_answer = False
     ok_ever = False
+    bad_ok = None        # an OK line whose argument is not a GUID, received for the mechanism in progress
     auth_sent = []
     begins = 0
     a_seen = False
@@ -456,6 +462,8 @@ def monitor(world, unix, evs, early_binary, pref=None):
             cmd, args = split_cmd(line)
             if cmd == b'OK' and valid_guid(args):
                 ok_seen = ok_ever = True
+            elif cmd == b'OK':
+                bad_ok = line
             pending_fd = unix and neg_after_ok and not fd_answer
             if cmd in (b'AGREE_UNIX_FD', b'ERROR') and neg_after_ok:
                 fd_answer = True
@@ -504,12 +512,18 @@ def monitor(world, unix, evs, early_binary, pref=None):
                 auth_sent.append(args.split(b' ')[0] if args else b'')
                 # a new mechanism is offered: an earlier OK (and negotiation) no longer counts
                 ok_seen = neg_after_ok = fd_answer = False
+                bad_ok = None
             if cmd == b'NEGOTIATE_UNIX_FD' and ok_seen:
                 neg_after_ok = True
             if line == b'BEGIN':
                 begins += 1
                 if not ok_seen:
-                    if ok_ever:
+                    if bad_ok is not None:
+                        out.append(('begin-after-ok-with-invalid-guid',
+                                    'BEGIN is sent on the strength of %r: its argument is not a hexadecimal GUID '
+                                    '(a GUID is a non-empty, even number of hex digits and nothing else)'
+                                    % (bad_ok[:60],)))
+                    elif ok_ever:
                         out.append(('begin-after-ok-of-abandoned-mechanism',
                                     'BEGIN is sent on the strength of an OK that was followed by another AUTH '
                                     '(the server has not accepted the mechanism in progress)'))
@@ -611,6 +625,7 @@ BASE_ALPHABET = [
     b'OK',
     b'OK zz',
     b'OK  ',                      # the argument is one blank: no GUID
+    b'OK 12 34',                  # hex pairs with white space inside: not a GUID
     b'AGREE_UNIX_FD',
     b'ERROR',
     b'DATA',
@@ -625,7 +640,18 @@ RICH_ALPHABET = BASE_ALPHABET + [
     b'OK  1234DEADBEEF ',
     b'OK\t1234',
     b'OK 123',
-    b'OK 12 34',
+    b'OK 12\t34',
+    b'OK 1234 deadbeef',
+    b'OK ab cd ef 01',
+    b'OK 12\n34',
+    b'OK 12\x0b34',
+    b'OK 12\x0c34 ',
+    b'OK 12\r34',
+    b'OK 1234 5',
+    b'OK 6abbe624c672777b d87ab46e00027706',
+    b'OK 1 2',
+    b'OK 0x12',
+    b'OK 12,34',
     b'OK ',
     b'OK   ',
     b'OK \t',
@@ -1260,6 +1286,629 @@ def sorted_exchange(evs):
 
 
 # --------------------------------------------------------------------------------------------
+# the composition: the REAL client and the REAL bus joined by in-memory byte pipes (stream 'own-bus-handshake')
+#
+# A real DBusClientConnection (Session above) and a real BusProtocol/BusAuthenticator with the three real
+# mechanisms sit on fake transports; what one side writes is queued and handed to the other side's
+# dataReceived in pieces chosen from ctx.rng (direction and cut: whole, byte by byte, random cuts, a cut
+# between CR and LF, moves on an empty queue).  One machine: a fake passwd (sys.modules['pwd']), fake peer
+# credentials (SO_PEERCRED of a fake socket), scratch home directories with keyrings in every state, a
+# patched clock, a counted os.urandom shared by both sides.  The same schedule is run on the composed Lean
+# model (driver `hs2`, Auth/Handshake2.lean) and everything observable is compared; the oracle
+# (`own_oracle_*`) looks at the implementation only.
+OWN_HOMES = ('hR', 'hA', 'hX')
+OWN_NOW = 1700000000
+OWN_GUID = b'6abbe624c672777bd87ab46e00027706'
+OWN_DIR_STATES = ('absent', 'good', 'good711', 'notowned', 'bad777', 'bad740', 'file')
+OWN_USER_NAMES = ('root', 'alice', '1000', '0', 'nobody', '-5', '')
+OWN_HELLO_DEFAULT = b'l\x01\x00\x01'
+
+
+def own_users():
+    users = [('root', 0, 0, 'hR'), ('alice', 1000, 1000, 'hA')]
+    eu = os.geteuid()
+    if eu not in (0, 1000):
+        users.append(('me', eu, os.getegid(), 'hX'))
+    return users
+
+
+def own_rnd(k, n):
+    return bytes((k * 131 + j * 17 + 7) % 256 for j in range(n))
+
+
+class OwnFakePwd(types.ModuleType):
+    def __init__(self, users):
+        types.ModuleType.__init__(self, 'pwd')
+        self._users = users      # (name, uid, gid, real home path)
+
+    @staticmethod
+    def _mk(u):
+        return types.SimpleNamespace(pw_name=u[0], pw_uid=u[1], pw_gid=u[2], pw_dir=u[3], pw_passwd='x',
+                                     pw_gecos='', pw_shell='/bin/sh')
+
+    def getpwnam(self, name):
+        if not isinstance(name, str):
+            raise TypeError('getpwnam() argument must be str')
+        if '\0' in name:
+            raise ValueError('embedded null character')
+        for u in self._users:
+            if u[0] == name:
+                return self._mk(u)
+        raise KeyError('getpwnam(): name not found: %r' % name)
+
+    def getpwuid(self, uid):
+        if not isinstance(uid, int):
+            raise TypeError('uid should be integer')
+        if uid < 0 or uid >= 2 ** 32:
+            raise KeyError('getpwuid(): uid not found')
+        for u in self._users:
+            if u[1] == uid:
+                return self._mk(u)
+        raise KeyError('getpwuid(): uid not found: %d' % uid)
+
+
+def own_patch_time(auth, tf):
+    """`time.time` as the cookie code sees it (default arguments of the cookie methods and the module's `time`)."""
+    import time as _time
+    undo = []
+    for klass in auth.BusCookieAuthenticator.__mro__:
+        for name, fn in list(vars(klass).items()):
+            f = getattr(fn, '__func__', fn)
+            d = getattr(f, '__defaults__', None)
+            if d and any(x is _time.time for x in d):
+                undo.append(lambda f=f, d=d: setattr(f, '__defaults__', d))
+                f.__defaults__ = tuple(tf if x is _time.time else x for x in d)
+    for name, val in list(vars(auth).items()):
+        if val is _time:
+            undo.append(lambda name=name, val=val: setattr(auth, name, val))
+            setattr(auth, name, types.SimpleNamespace(time=tf, sleep=lambda s: None))
+        elif val is _time.time:
+            undo.append(lambda name=name, val=val: setattr(auth, name, val))
+            setattr(auth, name, tf)
+    return undo
+
+
+class OwnEnv:
+    """One machine for one connection: scratch homes, keyrings, fake passwd, clock, counted randomness."""
+    name = 'own'
+
+    def __init__(self, root, spec, ctxname):
+        self.root, self.spec, self.ctxname = root, spec, ctxname
+        self.user = spec['user']
+        self.home = os.path.join(root, spec['chome'])
+        self.keyrings = [os.path.join(root, h, '.dbus-keyrings') for h in OWN_HOMES]
+        self.calls = 0
+        self.users = [(u[0], u[1], u[2], os.path.join(root, u[3])) for u in own_users()]
+        os.mkdir(root)
+        for h in OWN_HOMES:
+            os.mkdir(os.path.join(root, h))
+            st = spec['dirs'].get(h, 'absent')
+            dk = os.path.join(root, h, '.dbus-keyrings')
+            if st == 'absent':
+                continue
+            if st == 'file':
+                with open(dk, 'w') as f:
+                    f.write('x')
+                os.chmod(dk, 0o600)
+                continue
+            os.mkdir(dk)
+            if h in spec['files']:              # an empty list is an empty cookie file
+                with open(os.path.join(dk, ctxname), 'wb') as f:
+                    for cid, age, cookie in spec['files'][h]:
+                        f.write(b'%d %d %s\n' % (cid, OWN_NOW - age, cookie.encode('ascii')))
+            os.chmod(dk, {'good': 0o700, 'good711': 0o711, 'notowned': 0o700, 'bad777': 0o777, 'bad740': 0o740}[st])
+            if st == 'notowned' and os.geteuid() == 0:
+                os.chown(dk, 4242, 4242)
+        # what the model is told about the client's keyring directory before the connection
+        try:
+            st = os.stat(os.path.join(self.home, '.dbus-keyrings'))
+            self.init_stat = '%d:%d' % (st.st_mode, 1 if st.st_uid == os.geteuid() else 0)
+        except OSError:
+            self.init_stat = '0:0'
+        self.dir_before = {h: self.dir_state(h) for h in OWN_HOMES}
+        self.owner_before = {}
+        for h in OWN_HOMES:
+            try:
+                self.owner_before[h] = os.stat(os.path.join(root, h, '.dbus-keyrings')).st_uid
+            except OSError:
+                self.owner_before[h] = None
+
+    def urandom(self, n):
+        r = own_rnd(self.calls, n)
+        self.calls += 1
+        return r
+
+    def dir_state(self, h):
+        dk = os.path.join(self.root, h, '.dbus-keyrings')
+        try:
+            st = os.lstat(dk)
+        except OSError:
+            return 'a'
+        if not os.path.isdir(dk) or st.st_mode & 0o066:
+            return 'b'
+        return 'g'
+
+    def file_entries(self, h):
+        p = os.path.join(self.root, h, '.dbus-keyrings', self.ctxname)
+        try:
+            with open(p, 'rb') as f:
+                return [ln.split() for ln in f.read().split(b'\n') if ln.strip()]
+        except OSError:
+            return None
+
+    def fs_obs(self):
+        fs, ds = [], []
+        for h in OWN_HOMES:
+            e = self.file_entries(h)
+            if e is not None:
+                fs.append(hx(h.encode()) + ':' + '/'.join('%d.%s' % (int(x[0]), hx(x[2])) for x in e))
+            d = self.dir_state(h)
+            if d != 'a':
+                ds.append(hx(h.encode()) + ':' + d)
+        return (','.join(sorted(fs)) or '-', ','.join(sorted(ds)) or '-')
+
+    def model_world(self):
+        s = self.spec
+        creds = '-' if s['creds'] is None else str(s['creds'])
+        passwd = ','.join('%s:%d:%d:%s' % (hx(u[0].encode()), u[1], u[2], hx(u[3].encode())) for u in own_users())
+        dirs = ','.join('%s:%s' % (hx(h.encode()), self.dir_before[h]) for h in OWN_HOMES
+                        if self.dir_before[h] != 'a') or '-'
+        files = []
+        for h in OWN_HOMES:
+            if h in s['files'] and s['dirs'].get(h, 'absent') not in ('absent', 'file'):
+                files.append('%s:%s' % (hx(h.encode()), '/'.join('%d.%d.%s' % (cid, OWN_NOW - age, hx(cookie.encode()))
+                                                                  for cid, age, cookie in s['files'][h])))
+        return ';'.join([creds, passwd, dirs, ','.join(files) or '-', str(OWN_NOW) + ('+' if s['frac'] else ''),
+                         hx(self.ctxname.encode())])
+
+
+class OwnBus:
+    """A real BusProtocol (real BusAuthenticator, real mechanisms) on a fake transport with fake peer credentials."""
+
+    def __init__(self, world, creds):
+        from txdbus import bus
+        authentication, protocol = world.authentication, world.protocol
+        self.handed = handed = []
+        me = self
+
+        class HAuth(authentication.BusAuthenticator):
+            def __init__(self, *a, **kw):
+                authentication.BusAuthenticator.__init__(self, *a, **kw)
+                me.auth = self
+
+            def handleAuthMessage(self, line):
+                handed.append(bytes(line))
+                return authentication.BusAuthenticator.handleAuthMessage(self, line)
+
+        class Srv(bus.BusProtocol):
+            authenticator = HAuth
+
+            def rawDBusMessageReceived(self, raw):
+                me.raw += bytes(raw)
+
+        class FakeSock:
+            def getsockopt(self, level, opt, size=0):
+                return struct.pack('3i', 4242, creds if creds is not None else -1, 77)
+
+            def fileno(self):
+                return -1
+
+        class FakeBus:
+            uuid = OWN_GUID
+
+            def clientConnected(self, p):
+                pass
+
+            def clientDisconnected(self, p):
+                pass
+
+        class FakeFactory:
+            bus = FakeBus()
+
+        self.raw = b''
+        self.auth = None
+        self.log = []
+        self.t = FakeTransport(self.log)
+        self.t.socket = FakeSock()
+        # the switch of the SO_PEERCRED lookup (a private module global; when it is gone the lookup runs against
+        # the fake socket, whose uid -1 has no passwd entry: the same outcome as "no credentials")
+        self._gate = None
+        if isinstance(getattr(protocol, '_is_linux', None), bool):
+            self._gate = protocol._is_linux
+            protocol._is_linux = creds is not None
+        self.protocol_mod = protocol
+        self.p = Srv()
+        self.p.factory = FakeFactory()
+        self.p.makeConnection(self.t)
+        self.crash = None
+        self.fed = b''
+
+    def restore(self):
+        if self._gate is not None:
+            self.protocol_mod._is_linux = self._gate
+
+    def feed(self, data):
+        self.fed += data
+        if self.crash is not None:
+            return
+        try:
+            self.p.dataReceived(data)
+        except Exception as e:
+            self.crash = type(e).__name__ + ': ' + str(e)[:80]
+
+    def written(self):
+        return b''.join(e[1] if e[0] == 'w' else b''.join(e[1]) for e in self.log if e[0] in ('w', 'ws'))
+
+    def sent_lines(self):
+        v = self.written()
+        parts = v.split(CRLF)
+        if parts and parts[-1] == b'':
+            parts.pop()
+        return parts if v else []
+
+    def obs(self, env):
+        a, p = self.auth, self.p
+        authed = bool(p._authenticated)
+        g = p.guid
+        if isinstance(g, str):
+            g = g.encode('utf-8', 'surrogatepass')
+        cur = getattr(a, 'current_mech', '?')
+        if cur not in (None, '?'):
+            n = cur.getMechanismName()
+            cur = hx(n.encode() if isinstance(n, str) else bytes(n))
+        fs = env.fs_obs()
+        return ('sent=%s closed=%d auth=%d crashed=%d guid=%s bin=%s handed=%s state=%s rejects=%s cur=%s files=%s dirs=%s'
+                % (hxs_(self.sent_lines()), bool(self.t.disconnecting), authed, self.crash is not None,
+                   'none' if g is None else hx(g), hx(self.raw + (p._buffer if authed else b'')),
+                   hxs_(self.handed), getattr(a, 'state', '?'), getattr(a, 'reject_count', '?'),
+                   'none' if cur is None else cur, fs[0], fs[1]))
+
+
+def hxs_(lst):
+    return ','.join(hx(x) for x in lst) if lst else '-'
+
+
+def client_written(s):
+    return b''.join(e[1] if e[0] == 'w' else b''.join(e[1]) for e in s.log if e[0] in ('w', 'ws'))
+
+
+def own_gen_spec(rng):
+    user = rng.choice(OWN_USER_NAMES if rng.random() < 0.8 else ('root', 'alice'))
+    home_of = {'root': 'hR', '0': 'hR', 'alice': 'hA', '1000': 'hA'}
+    chome = home_of.get(user, 'hX') if rng.random() < 0.75 else rng.choice(OWN_HOMES)
+    spec = {'unix': rng.random() < 0.5, 'ukind': rng.choice(['class', 'instance']),
+            'creds': rng.choice([None, None, None, 0, 1000, 5555, -1]),
+            'user': user, 'chome': chome, 'dirs': {}, 'files': {}, 'frac': rng.random() < 0.5}
+    for h in OWN_HOMES:
+        st = rng.choice(['absent', 'absent', 'good', 'good', 'good', 'good711', 'notowned', 'bad777', 'bad740', 'file'])
+        spec['dirs'][h] = st
+        if st in ('good', 'good711', 'notowned') and rng.random() < 0.6:
+            ents = []
+            for _ in range(rng.randint(0, 3)):
+                ents.append([rng.choice([1, 1, 2, 3, 7, 9, 41]), rng.choice([3, 10, 29, 31, 500, -5, -31, 0]),
+                             rng.choice(['aabbcc', 'c00c1e', '0badc0de', 'feed'])])
+            spec['files'][h] = ents
+    return spec
+
+
+def own_gen_schedule_policy(rng):
+    return rng.choice(['whole', 'whole', 'bytewise', 'random', 'random', 'random', 'crlf', 'tiny', 'mixed', 'mixed'])
+
+
+def own_next_move(rng, policy, c2s, s2c):
+    """One move of the adversary: ('S'|'C', n) hands the first n+1 queued bytes (all, when fewer) of that
+    direction to the bus ('S') / the client ('C') as one read."""
+    dirs = [d for d, q in (('S', c2s), ('C', s2c)) if q]
+    if not dirs or rng.random() < 0.03:
+        d = rng.choice(['S', 'C'])             # also a move on an empty queue: nothing happens
+    else:
+        d = rng.choice(dirs)
+    q = c2s if d == 'S' else s2c
+    p = policy if policy != 'mixed' else rng.choice(['whole', 'bytewise', 'random', 'crlf', 'tiny'])
+    if not q or p == 'whole':
+        n = len(q) + rng.choice([0, 0, 5, 100000])
+    elif p == 'bytewise':
+        n = 0
+    elif p == 'tiny':
+        n = rng.randrange(0, 3)
+    elif p == 'crlf':
+        i = bytes(q).find(b'\r')
+        n = i if i >= 0 and rng.random() < 0.8 else rng.randrange(0, len(q))
+    else:
+        n = rng.randrange(0, len(q) + 2)
+    return d, n
+
+
+def own_expected_mechanism(spec, env):
+    """Which mechanism the handshake must end with, from the environment alone (see the theorem
+    own_bus_handshake_completes): EXTERNAL when the peer credentials carry a uid with a passwd entry; otherwise
+    DBUS_COOKIE_SHA1 when the keyring is usable by both sides; otherwise ANONYMOUS."""
+    users = own_users()
+    if spec['creds'] is not None and any(u[1] == spec['creds'] for u in users):
+        return b'EXTERNAL'
+    user = spec['user']
+    if user == '':
+        return b'ANONYMOUS'
+    name = user
+    try:
+        uid = int(user)
+        name = None
+        for u in users:
+            if u[1] == uid:
+                name = u[0]
+                break
+    except ValueError:
+        pass
+    ent = [u for u in users if u[0] == name]
+    if not ent:
+        return b'ANONYMOUS'
+    ent = ent[0]
+    before = env.dir_before[ent[3]]
+    if before == 'b':
+        return b'ANONYMOUS'                         # the bus refuses the keyring directory
+    if spec['chome'] != ent[3]:
+        return b'ANONYMOUS'                         # the client reads another keyring: it cannot know the cookie
+    eu = os.geteuid()
+    if before == 'a':
+        owner = ent[1] if eu == 0 else eu           # created by the bus (root: chowned to the user)
+    else:
+        owner = env.owner_before[ent[3]]
+    return b'DBUS_COOKIE_SHA1' if owner == eu else b'ANONYMOUS'
+
+
+def own_run(world, tmp, spec, rng=None, schedule=None, ctxname=None):
+    """Runs one composed handshake of the real code.  Either draws the schedule from rng (until both queues are
+    empty or 6000 moves) or replays `schedule`.  Returns a dict with everything observed."""
+    import sys as _sys
+    import types as _types
+    authentication = world.authentication
+    own_run.counter = getattr(own_run, 'counter', 0) + 1
+    root = os.path.join(tmp, 'own-%d' % own_run.counter)
+    env = OwnEnv(root, spec, ctxname)
+    old_pwd = _sys.modules.get('pwd')
+    import pwd as _real_pwd
+    fake = OwnFakePwd(env.users)
+    saved_funcs = (_real_pwd.getpwnam, _real_pwd.getpwuid)
+    tf = (lambda: OWN_NOW + 0.5) if spec['frac'] else (lambda: float(OWN_NOW))
+    undo = own_patch_time(authentication, tf)
+    busd = None
+    try:
+        _sys.modules['pwd'] = fake
+        try:
+            _real_pwd.getpwnam, _real_pwd.getpwuid = fake.getpwnam, fake.getpwuid
+        except (AttributeError, TypeError):
+            saved_funcs = None
+        world.set_env(env)
+        busd = OwnBus(world, spec['creds'])
+        s = Session(world, spec['unix'], env, ukind=spec.get('ukind', 'class'))
+        c2s, s2c = bytearray(), bytearray()
+        cpos = [0]
+        spos = [0]
+        violations = []
+
+        def pump():
+            cw = client_written(s)
+            c2s.extend(cw[cpos[0]:])
+            cpos[0] = len(cw)
+            sw = busd.written()
+            s2c.extend(sw[spos[0]:])
+            spos[0] = len(sw)
+
+        def check_step():
+            """the safety clauses, after every read (implementation only)"""
+            cw = client_written(s)
+            i = cw.find(b'BEGIN\r\n')
+            ok_sent = any(l.startswith(b'OK ') for l in busd.sent_lines())
+            if i >= 0 and not ok_sent and not any(v[0] == 'own-bus-begin-before-bus-ok' for v in violations):
+                violations.append(('own-bus-begin-before-bus-ok',
+                                   'the client has written BEGIN%s although the bus has not written an OK line yet'
+                                   % (' and %d bytes after it' % (len(cw) - i - 7) if len(cw) > i + 7 else '')))
+            if i >= 0 and busd.crash is None:
+                line_part = i + 7
+                authed = bool(busd.p._authenticated)
+                if not authed and not busd.t.disconnecting and len(busd.fed) > line_part \
+                        and not any(v[0] == 'own-bus-binary-in-line-mode' for v in violations):
+                    violations.append(('own-bus-binary-in-line-mode',
+                                       'the bus has been handed %d bytes that follow BEGIN but is still in line mode'
+                                       % (len(busd.fed) - line_part)))
+                if authed and busd.raw + busd.p._buffer != busd.fed[line_part:] \
+                        and not any(v[0] == 'own-bus-binary-lost-at-handoff' for v in violations):
+                    violations.append(('own-bus-binary-lost-at-handoff',
+                                       'the bytes the client wrote after BEGIN did not reach the binary branch of the '
+                                       'bus unchanged: fed %r, binary branch holds %r'
+                                       % (busd.fed[line_part:][:40], (busd.raw + busd.p._buffer)[:40])))
+
+        pump()
+        check_step()
+        used = []
+        policy = own_gen_schedule_policy(rng) if rng is not None else None
+        k = 0
+        while True:
+            if schedule is not None:
+                if k >= len(schedule):
+                    break
+                d, n = schedule[k]
+            else:
+                if (not c2s and not s2c) or k >= 6000:
+                    if not c2s and not s2c and rng.random() < 0.3:
+                        used.append((rng.choice(['S', 'C']), rng.randrange(0, 9)))   # a move when nothing is queued
+                    break
+                d, n = own_next_move(rng, policy, c2s, s2c)
+            k += 1
+            used.append((d, n))
+            q = c2s if d == 'S' else s2c
+            if not q:
+                continue
+            data = bytes(q[:n + 1])
+            del q[:n + 1]
+            if d == 'S':
+                busd.feed(data)
+            else:
+                s.feed(data)
+            pump()
+            check_step()
+        evs, early = s.events(raw=True)
+        cw = client_written(s)
+        i = cw.find(b'BEGIN\r\n')
+        hello = cw[i + 7:] if i >= 0 else b''
+        errtexts = {}
+        for e in evs:
+            if e.startswith('S:'):
+                l = unhx(e[2:])
+                if l.startswith(b'ERROR '):
+                    errtexts[error_kind(l[6:])] = l[6:]
+        out = {
+            'spec': spec, 'schedule': used, 'policy': policy, 'env': env, 'session': s, 'bus': busd,
+            'client': ' '.join(evs) + ' | ' + s.final(), 'busobs': busd.obs(env),
+            'queues': 'c2s=%s s2c=%s' % (hx(bytes(c2s)), hx(bytes(s2c))),
+            'quiescent': not c2s and not s2c, 'hello': hello, 'errtexts': errtexts, 'early': early,
+            'violations': violations, 'events': s.events()[0], 'begins': cw.count(b'BEGIN\r\n') if i >= 0 else 0,
+            'world': env.model_world(), 'init_stat': env.init_stat,
+        }
+        return out
+    finally:
+        if busd is not None:
+            busd.restore()
+        for f in undo:
+            f()
+        if old_pwd is not None:
+            _sys.modules['pwd'] = old_pwd
+        else:
+            _sys.modules.pop('pwd', None)
+        if saved_funcs is not None:
+            _real_pwd.getpwnam, _real_pwd.getpwuid = saved_funcs
+        shutil.rmtree(root, ignore_errors=True)
+
+
+def own_driver_line(r):
+    spec = r['spec']
+    errs = ','.join('%s:%s' % (k, hx(v)) for k, v in sorted(r['errtexts'].items()) if re.match(r'^[A-Za-z]+$', k)) or '-'
+    sched = ','.join('%s%d' % (d, n) for d, n in r['schedule']) or '-'
+    return ' '.join(['hs2', '1' if spec['unix'] else '0', hx(OWN_GUID), hx(r['hello'] or OWN_HELLO_DEFAULT),
+                     hx(spec['user'].encode('ascii')), hx(spec['chome'].encode()), r['init_stat'],
+                     '1' if os.geteuid() == 0 else '0', str(os.geteuid()), r['world'], errs, sched])
+
+
+def own_strip_rnd(model_out):
+    return re.sub(r' rnd=\d+', '', model_out) if model_out is not None else None
+
+
+def own_judge(ctx, world, r, m, stream='own-bus-handshake'):
+    spec = r['spec']
+    shown = {'kind': 'ownbus', 'spec': spec, 'schedule': [[d, n] for d, n in r['schedule']]}
+    impl = r['client'] + ' || ' + r['busobs'] + ' || ' + r['queues']
+    ctx.impl_trace()
+    ctx.case(stream, sample=shown if len(r['schedule']) <= 40 else {'kind': 'ownbus', 'spec': spec, 'moves': len(r['schedule'])})
+    m = own_strip_rnd(m)
+    if m is not None and m != impl:
+        ctx.disagree(stream, shown, m, impl)
+    s, busd = r['session'], r['bus']
+    # C07's own monitors on the client's trace
+    for key, what in monitor(world, spec['unix'], r['events'], r['early']):
+        ctx.violation(key, what + ' (partner: the real bus, own-bus-handshake)', inp=shown, observed=impl,
+                      expected='see the property statement of C07')
+    for key, what in r['violations']:
+        ctx.violation(key, what, inp=shown, observed=impl,
+                      expected='BEGIN and binary data only after the bus accepted a mechanism; binary data never in line mode')
+    mech = None
+    for l in busd.handed:
+        if l.startswith(b'AUTH '):
+            toks = l.split()
+            mech = toks[1] if len(toks) > 1 else b''
+    ctx.stat('own:policy=%s' % r['policy'])
+    path = []
+    for e in r['events']:
+        if e.startswith('S:'):
+            l = unhx(e[2:])
+            w = l.split(b' ')
+            path.append((w[0] + (b'-' + w[1] if w[0] in (b'AUTH', b'ERROR') and len(w) > 1 else b'')).decode('ascii', 'replace'))
+    ctx.stat('own:path=' + '/'.join(path).replace('DBUS_COOKIE_SHA1', 'COOKIE').replace('NEGOTIATE_UNIX_FD', 'NEG'))
+    ctx.stat('own:moves=%s' % (len(r['schedule']) if len(r['schedule']) < 10 else '%d+' % (len(r['schedule']) // 10 * 10)
+                               if len(r['schedule']) < 100 else '100+'))
+    if r['quiescent']:
+        done = bool(s.p._authenticated) and bool(busd.p._authenticated)
+        closed = bool(s.t.disconnecting) or bool(busd.t.disconnecting)
+        ctx.stat('own:%s:%s:%s' % ('unix' if spec['unix'] else 'tcp', (mech or b'?').decode('ascii', 'replace'),
+                                    'complete' if done else 'incomplete'))
+        if busd.crash is not None or s.crash is not None:
+            ctx.violation('own-bus-exception', 'an exception escapes dataReceived during the handshake of txdbus\'s client '
+                          'with txdbus\'s own bus: %s' % (busd.crash or s.crash,), inp=shown, observed=impl,
+                          expected='the handshake completes')
+        elif not done:
+            ctx.violation('own-bus-handshake-incomplete',
+                          'every queued byte was delivered, yet the handshake of txdbus\'s client with txdbus\'s own bus '
+                          'is not complete (client authenticated=%d, bus authenticated=%d, closed=%d)'
+                          % (bool(s.p._authenticated), bool(busd.p._authenticated), closed),
+                          inp=shown, observed=impl, expected='both sides authenticated, the connection open')
+        else:
+            if closed:
+                ctx.violation('own-bus-connection-closed', 'the handshake completed but a side called loseConnection',
+                              inp=shown, observed=impl, expected='the connection stays open')
+            if r['begins'] != 1:
+                ctx.violation('own-bus-begin-not-once', 'the client wrote BEGIN %d times' % r['begins'], inp=shown,
+                              observed=impl, expected='exactly one BEGIN')
+            want = own_expected_mechanism(spec, r['env'])
+            if mech != want:
+                ctx.violation('own-bus-unexpected-mechanism',
+                              'the handshake ends with mechanism %r; the environment (credentials %r, user %r, keyring of '
+                              'the user %s, client home %s) allows %r, which the client prefers'
+                              % (mech, spec['creds'], spec['user'], spec['dirs'], spec['chome'], want),
+                              inp=shown, observed=impl, expected=want.decode())
+    else:
+        ctx.stat('own:schedule-ended-before-quiescence')
+
+
+def own_context_name(world):
+    v = getattr(world.authentication.BusCookieAuthenticator, 'cookieContext', None)
+    return v if isinstance(v, str) else None
+
+
+def run_own_bus(ctx, world, tmp, rng):
+    ctxname = own_context_name(world)
+    if ctxname is None:
+        ctx.note('own-bus-handshake: BusCookieAuthenticator.cookieContext not found; stream skipped')
+        return
+    results = []
+    # every user / credential / transport combination once with whole deliveries and once byte by byte ...
+    import random as _random
+    base = []
+    for user in OWN_USER_NAMES:
+        for creds in (None, 0, 5555):
+            for unix in (False, True):
+                for dstate in ('absent', 'good', 'notowned', 'bad777'):
+                    home_of = {'root': 'hR', '0': 'hR', 'alice': 'hA', '1000': 'hA'}
+                    chome = home_of.get(user, 'hX')
+                    base.append({'unix': unix, 'ukind': 'class' if creds is None else 'instance', 'creds': creds,
+                                 'user': user, 'chome': chome, 'dirs': {h: dstate for h in OWN_HOMES},
+                                 'files': {h: [[1, 3, 'aabbcc'], [2, 500, 'feed']] for h in OWN_HOMES} if dstate == 'good' else {},
+                                 'frac': unix})
+    try:
+        phase = int(ctx.seed) % 3
+    except (TypeError, ValueError):
+        phase = 0
+    pick = base if ctx.tier != 'quick' or ctx.widen else [b for k, b in enumerate(base) if k % 3 == phase]
+    for k, spec in enumerate(pick):
+        sub = _random.Random('%d-%d' % (ctx.seed, k))
+        results.append(own_run(world, tmp, spec, rng=sub, ctxname=ctxname))
+    # ... then random environments under random schedules
+    n = ctx.scale(quick=600, thorough=12000)
+    for _ in range(n):
+        results.append(own_run(world, tmp, own_gen_spec(rng), rng=rng, ctxname=ctxname))
+    out = ctx.model([own_driver_line(r) for r in results])
+    for r, m in zip(results, out or [None] * len(results)):
+        own_judge(ctx, world, r, m)
+
+
+def own_replay(ctx, world, tmp, inp):
+    ctxname = own_context_name(world)
+    if ctxname is None:
+        return
+    r = own_run(world, tmp, inp['spec'], schedule=[(d, int(n)) for d, n in inp['schedule']], ctxname=ctxname)
+    m = ctx.model([own_driver_line(r)])
+    own_judge(ctx, world, r, m[0] if m else None)
+
+
+# --------------------------------------------------------------------------------------------
 def random_lines_case(rng, envs, alphabet, maxlen, env_names):
     n = rng.randrange(1, maxlen + 1)
     # half of the conversations draw 4 of 5 lines from the forms that keep the connection open, so that
@@ -1319,6 +1968,8 @@ def _run(ctx, world, envs, tmp):
             if inp.get('delivery'):
                 judge_handshake(ctx, world, envs, cfg, dict(shown, delivery=inp['delivery']), None,
                                 deliver=delivery_by_name(inp['delivery']), base=base[0])
+        elif inp.get('kind') == 'ownbus':
+            own_replay(ctx, world, tmp, inp)
     if corpus_cases:
         batch(ctx, world, 'lines-exhaustive', corpus_cases, envs)
 
@@ -1424,6 +2075,10 @@ def _run(ctx, world, envs, tmp):
     # several connections in one process against a keyring whose cookies change between connections
     run_handshake_sequences(ctx, world, tmp, rng)
 
+    # txdbus's client against txdbus's own bus over byte pipes, every delivery chosen by the adversary; compared
+    # with the composed model (Auth/Handshake2.lean)
+    run_own_bus(ctx, world, tmp, rng)
+
 
 def replay(ctx, data):
     tmp = tempfile.mkdtemp(prefix='verif-c07-')
@@ -1445,6 +2100,8 @@ def replay(ctx, data):
             if inp.get('delivery'):
                 judge_handshake(ctx, world, envs, cfg, dict(shown, delivery=inp['delivery']), None,
                                 deliver=delivery_by_name(inp['delivery']), base=base[0])
+        elif kind == 'ownbus':
+            own_replay(ctx, world, tmp, inp)
         else:
             run_real_bus(ctx, world, envs, tmp)
     finally:
